@@ -19,6 +19,7 @@ structure St where
   ruleRoot : Option CellId
   returnVal : Option CellId
   faults : Nat                 -- ghost: number of runtime errors raised so far
+  faultOut : Nat := 0          -- ghost: number of output chunks when the last runtime error was raised
   deriving Inhabited
 
 /-- the output written so far -/
@@ -64,7 +65,7 @@ def throwUnmodelled {α : Type} (why : String) : EM α := fun s => .err (.unmode
 
 /-- `e.error(token, msg)`: create a runtime error; the ghost counter records the creation. -/
 def throwRt {α : Type} (pos : Nat) (msg : String) : EM α := fun s =>
-  .err (.runtime pos msg) { s with faults := s.faults + 1 }
+  .err (.runtime pos msg) { s with faults := s.faults + 1, faultOut := s.out.length }
 
 /-- lift a plain Go `error` into a runtime error at `pos` -/
 def liftExcept {α : Type} (pos : Nat) : Except String α → EM α
@@ -93,6 +94,44 @@ def pushFrame (name : Bytes) : EM (Except String Unit) := fun s =>
 
 /-- restore the frame stack saved before a `pushFrame` (every exit path of a call or match) -/
 def restoreFrames (fr : List Frame) : EM Unit := fun s => .ok () { s with frames := fr }
+
+/-- `defer func() { e.stackTop = saved }()` around `m`: whatever way `m` ends, the frame stack
+    is the saved one afterwards -/
+def withFrames {α : Type} (saved : List Frame) (m : EM α) : EM α := fun s =>
+  match m s with
+  | .ok a s' => .ok a { s' with frames := saved }
+  | .err e s' => .err e { s' with frames := saved }
+  | .oof => .oof
+
+/-- one loop iteration: run `body`; `break` ends the loop normally, `continue` and normal
+    completion go on with `k`, everything else propagates
+    (`if err == errBreak { break } else if err != nil && err != errContinue { return err }`) -/
+def loopIter (body : EM Unit) (k : EM Unit) : EM Unit := fun s =>
+  match body s with
+  | .ok () s' => k s'
+  | .err (.sig .brk) s' => .ok () s'
+  | .err (.sig .cont) s' => k s'
+  | .err e s' => .err e s'
+  | .oof => .oof
+
+/-- a function body: `errReturn` yields the value of the return slot, normal completion null -/
+def catchReturn (body : EM Unit) : EM Val := fun s =>
+  match body s with
+  | .ok () s' => .ok (.nil none) s'
+  | .err (.sig .ret) s' =>
+    .ok (match s'.returnVal with
+         | some c => s'.heap.get c
+         | none => .nil none) s'
+  | .err e s' => .err e s'
+  | .oof => .oof
+
+/-- run `m`; the given signal ends it normally with `dflt` (how `evalRules` consumes `next`) -/
+def catchSig {α : Type} (g : Sig) (dflt : α) (m : EM α) : EM α := fun s =>
+  match m s with
+  | .ok a s' => .ok a s'
+  | .err (.sig g') s' => if g' = g then .ok dflt s' else .err (.sig g') s'
+  | .err e s' => .err e s'
+  | .oof => .oof
 
 def lookupFrames : List Frame → Bytes → Option CellId
   | [], _ => none
